@@ -59,6 +59,8 @@ def range_rejections(call_fn):
                         cmp = (c[0], c[1].attr)
                     elif g is not None and isinstance(g[1], ast.Constant) and g[1].value is None and g[0] is ast.IsNot:
                         guard_field = [x for x in (p.left, *p.comparators) if is_self_attr(x)][0].attr
+                    elif is_self_attr(p) or (isinstance(p, ast.UnaryOp) and is_self_attr(p.operand)):
+                        guard_field = f"<truthiness of {norm(p)}>"      # `if self.start and ...` skips the bound when it is 0
                     else:
                         raise AnalysisError(f"tools.Range.__call__: condition `{norm(p)}` not recognised")
                 if cmp is None:
